@@ -8,6 +8,7 @@
      lenient_colon : parse_byte_str does not notice a missing ':'
                      (the code's behaviour before the repair: true). *)
 From Rdest Require Export Base.
+From Rdest Require Import ShapeCheck.   (* the vocabulary of the code is the one modelled: see ShapeCheck.v *)
 Open Scope N_scope.
 
 Inductive bvalue : Type :=
